@@ -769,7 +769,8 @@ PROPS["C33"] = {
                     "timer channel semantics of Go >= 1.23 (the harness module): Stop/Reset discard a pending tick"],
 }
 PROPS["C26"] = {
-    "theorems": ["C26_connect_then_simple_calls", "C26_and_final_disconnect", "C26_refuted"],
+    "theorems": ["C26_connect_then_simple_calls", "C26_and_final_disconnect", "C26_subscriptions_and_delivery",
+                 "C26_subscriptions_and_final_disconnect", "C26_refuted"],
     "drivers": ["drv_e2e.test"],
     "units": [Unit("drv_e2e", unit_e2e)],
     "mismatch_kinds": [r"."],
